@@ -20,6 +20,7 @@ mod pubpoint;
 mod reschain;
 mod rfc1982;
 mod rrdp;
+mod rrdpsync;
 mod rtrconn;
 mod rtrwire;
 mod rtrpacing;
@@ -69,6 +70,7 @@ fn main() {
         ("replay", "rtrfanout") => rtrfanout::replay(rest),
         ("replay", "rtaval") => rtaval::replay(rest),
         ("replay", "pubpoint") => pubpoint::replay(rest),
+        ("replay", "rrdpsync") => rrdpsync::replay(rest),
         ("drive", "pubpoint") => pubpoint::drive(rest),
         ("cycle", "rtaval") => rtaval::cycle(rest),
         ("drive", "rtaval") => rtaval::drive(rest),
